@@ -180,3 +180,21 @@ func manyPartLocs(parts int) (L int, locs []gts.Location) {
 	}
 	return L, locs
 }
+
+// multiTables: every ordered triple over a menu of ten locations on six residues (ranges, points, a site, a
+// complement, joins, the full range).  Table dimension of the location checks: what an operation does to one
+// feature must not depend on its neighbours in the table (a feature dropped or split in the middle of the walk).
+func multiTables() (L int, tables [][]string) {
+	menu := []gts.Location{gts.Range(0, 2), gts.Range(1, 4), gts.Range(3, 6), gts.Point(2), gts.Point(5),
+		gts.Complemented{Location: gts.Range(2, 5)}, gts.Joined{gts.Range(0, 1), gts.Range(4, 6)}, gts.Between(3), gts.Range(0, 6),
+		gts.Complemented{Location: gts.Joined{gts.Range(1, 2), gts.Range(3, 5)}}}
+	enc := encodeAll(menu)
+	for _, a := range enc {
+		for _, b := range enc {
+			for _, c := range enc {
+				tables = append(tables, []string{a, b, c})
+			}
+		}
+	}
+	return 6, tables
+}
